@@ -20,34 +20,13 @@ FRAMING = [
 
 
 def _rem_constraints(zf, param_sym):
-    """switches on `Rem(len + c, m) ==/!= 0`; returns list of (block, edge_target_where_zero, c, m)."""
+    """edges on which `(len + c) % m == 0` is known (a branch on the remainder, a conjunct of a guard, or the boolean handed to a checking
+    helper); returns list of (block, edge target, c, m)."""
     out = []
-    body = zf.body
-    for bi, blk in enumerate(body.blocks):
-        if blk['cleanup']:
-            continue
-        t = blk['term']
-        if t['k'] != 'switch' or t['discr']['k'] not in ('copy', 'move') or t['discr']['pl'].get('p'):
-            continue
-        d = zf.single_def(t['discr']['pl']['l'])
-        if not d or d[0] != 'assign' or d[2]['rv']['k'] != 'binop' or d[2]['rv']['op'] not in ('Ne', 'Eq'):
-            continue
-        rv = d[2]['rv']
-        a, b = rv['a'], rv['b']
-        if b['k'] != 'const' or b.get('int') != '0' or a['k'] not in ('copy', 'move') or a['pl'].get('p'):
-            continue
-        d2 = zf.single_def(a['pl']['l'])
-        if not d2 or d2[0] != 'assign' or d2[2]['rv']['k'] != 'binop' or d2[2]['rv']['op'] != 'Rem':
-            continue
-        x, m = zf.term_op(d2[2]['rv']['a']), zf.term_op(d2[2]['rv']['b'])
-        if x is None or m is None or m[0] is not None or x[0] != param_sym:
-            continue
-        zero_t = [bb for v, bb in t['targets'] if v == '0']
-        if len(t['targets']) != 1 or not zero_t:
-            continue
-        # Ne: value 1 (otherwise) means != 0 ; value 0 means == 0.   Eq: the opposite.
-        eq_edge = zero_t[0] if rv['op'] == 'Ne' else t['otherwise']
-        out.append((bi, eq_edge, x[1], m[1]))
+    for (sb, tgt), mods in zf.edge_mods.items():
+        for (sym, c, m) in mods:
+            if sym == param_sym:
+                out.append((sb, tgt, c, m))
     return out
 
 
